@@ -134,3 +134,47 @@ class Outer:
 
         def __repr__(self):
             return f"Outer.Inner({self.__dict__!r})"
+
+
+# ---- subclasses of the constant types (C15: "an equal value of the same kind")
+import enum as _enum
+
+
+class Colour(str, _enum.Enum):
+    RED = "red"
+    GREEN = "grün"
+
+
+class Sig(_enum.IntEnum):
+    INT = 2
+    BIG = 2**40
+
+
+class LoudStr(str):
+    def __str__(self):
+        return "LOUD:" + str.__str__(self).upper()
+
+    def __repr__(self):
+        return "LoudStr(...)"
+
+
+class MyInt(int):
+    def __repr__(self):
+        return "MyInt(?)"
+
+    def __str__(self):
+        return "not-a-number"
+
+
+class MyBytes(bytes):
+    def __repr__(self):
+        return "MyBytes(?)"
+
+
+class MyFloat(float):
+    def __repr__(self):
+        return "MyFloat(?)"
+
+
+SUBCLASS_VALUES = (Colour.RED, Colour.GREEN, Sig.INT, Sig.BIG, LoudStr("quiet"), MyInt(7), MyInt(2**70), MyBytes(b"raw"),
+                   MyFloat(1.5))  # fmt: skip
